@@ -216,25 +216,9 @@ def form_case(ctx, els, directed=None):
             return sorted(out, key=lambda x: [str(y) for y in x])
 
         def relax(items_impl, items_model):
-            """replace values that may hold relative references by a verdict, pairwise by (place, tag, ref, event)"""
-            a = canon_sets(items_impl, False)
-            b = canon_sets(items_model, True)
-            if len(a) != len(b):
-                return a, b
-            for x, y in zip(a, b):
-                if x[:4] == y[:4] and x[4] != y[4] and x[4] is not None and y[4] is not None:
-                    # find the source text of this value
-                    tgt = next((q for q, p, _ in walked if p == x[2]), None)
-                    if tgt is None:
-                        continue
-                    if x[3] == "xforms-value-changed":
-                        # the value of a nested set-node is expanded from the TARGET node (its `ref`)
-                        text, ctx_reps = tgt["calc"], reps_of[tgt["name"]]
-                    else:
-                        text, ctx_reps = tgt["default"], reps_of[tgt["name"]]
-                    if text and value_ok(text, ctx_reps, info, x[4]) and y[4] == abs_sub(text, paths):
-                        x[4] = y[4] = "<relative reference form of> " + text
-            return a, b
+            """values are compared EXACTLY: the model expands references with C03's model (`Pyxv.Refs.refFor` through
+            `Defaults.subRefs`), relative paths included"""
+            return canon_sets(items_impl, False), canon_sets(items_model, True)
 
         li = sorted([l for l in obs["leaves"] if l[0] in qpaths], key=str)
         lm = sorted([l for l in m["leaves"] if l[0] in qpaths], key=str)
@@ -248,15 +232,7 @@ def form_case(ctx, els, directed=None):
             ctx.mismatch("nested value-changed set-nodes (control, tag, ref, value)", case, ti, tm)
         bi = sorted([[p, c] for p, cs in obs["binds"].items() if p in qpaths for c in cs], key=str)
         bm_raw = [[p, c] for p, c in m["binds"] if p in qpaths]
-        # calculate may hold a relative reference as well
-        bm = []
-        for p, c in bm_raw:
-            tgt = next((q for q, pp, _ in walked if pp == p), None)
-            ic = next((c2 for p2, c2 in bi if p2 == p), None)
-            if c is not None and ic is not None and c != ic and tgt and value_ok(tgt["calc"], reps_of[tgt["name"]], info, ic):
-                c = ic
-            bm.append([p, c])
-        bm = sorted(bm, key=str)
+        bm = sorted(bm_raw, key=str)
         if bi != bm:
             ctx.mismatch("bind calculate per question", case, bi, bm)
         mdyn = {n: d for n, d in m["dyn"]}
@@ -269,6 +245,9 @@ def form_case(ctx, els, directed=None):
     dyn = {q["name"]: bool(b) for q, b in zip(with_default, pinned)}
     if mdyn is not None and any(mdyn.get(n) != b for n, b in dyn.items()):
         ctx.mismatch("classification of a default: current tables vs pinned lexicon", case, mdyn, dyn)
+    ctx.count("value:relative-reference", sum(1 for x in obs["sets"] + obs["trigs"] if x[4] and " ../" in x[4])
+              + sum(1 for cs in obs["binds"].values() for c in cs if c and " ../" in c))
+    ctx.count("value:absolute-reference", sum(1 for x in obs["sets"] + obs["trigs"] if x[4] and " /data/" in x[4]))
     # ---- oracle on the implementation's XForm
     if obs["stray"]:
         ctx.fail(Failure("stray-set-node", f"set-node outside model / repeat / control: {obs['stray'][:2]}", case))
@@ -356,6 +335,16 @@ def directed_forms():
                                                    {"k": "grp", "name": "g", "kids": [q("d", default="now()"), q("e", "date", default="2020-01-01"),
                                                                                       {"k": "rep", "name": "r2", "kids": [q("f", "integer", default="1 + 1"), q("f2", default="${a}")]}]}]},
                 q("z", default="uuid()")])
+    # prefix-related names between a repeat and elements outside it (string-prefix vs path-segment confusion)
+    for rep_name, outside in [("r", ["r_x", "rs", "r2"]), ("abc", ["abcd", "abc.e", "abc-f"])]:
+        els = [{"k": "rep", "name": rep_name, "kids": [q("in_" + rep_name, default="now()")]}]
+        for i, nm in enumerate(outside):
+            if i == 1:
+                els.append({"k": "grp", "name": nm, "kids": [q("w" + nm.replace(".", "").replace("-", ""), default="1 + 1"), q("s" + str(i), default="abc")]})
+            else:
+                els.append(q(nm, "integer" if i else "text", default="today()" if i else "uuid()"))
+        out.append(els)
+        out.append([{"k": "grp", "name": "top", "kids": list(reversed(els))}])
     return out
 
 
